@@ -168,6 +168,63 @@ pub fn order_admissible(reference: &[Row], desc: &[bool], got: &[Vec<V>]) -> boo
 
 pub const EXEC_DIALECTS: [Dialect; 2] = [Dialect::SQLite, Dialect::Generic];
 
+/// true iff the outermost SELECT ends in `ORDER BY <projected columns>` and `rows` are not sorted that way
+pub fn engine_violates_own_order_by(sql: &str, names: &[String], rows: &[Vec<V>]) -> bool {
+    // text after the last top-level closing parenthesis = the outermost SELECT
+    let mut depth = 0i32;
+    let mut last_top = 0usize;
+    for (i, c) in sql.char_indices() {
+        match c {
+            '(' => depth += 1,
+            ')' => {
+                depth -= 1;
+                if depth == 0 {
+                    last_top = i + 1;
+                }
+            }
+            _ => {}
+        }
+    }
+    let tail = &sql[last_top..];
+    let Some(p) = tail.rfind("ORDER BY ") else { return false };
+    let mut ob = &tail[p + 9..];
+    for stop in [" LIMIT ", " OFFSET ", " FETCH "] {
+        if let Some(q) = ob.find(stop) {
+            ob = &ob[..q];
+        }
+    }
+    let mut keys: Vec<(usize, bool)> = vec![];
+    for term in ob.split(',') {
+        let t = term.trim();
+        let (name, desc) = match t.strip_suffix(" DESC") {
+            Some(n) => (n.trim(), true),
+            None => (t.strip_suffix(" ASC").unwrap_or(t).trim(), false),
+        };
+        let bare = name.rsplit('.').next().unwrap_or(name).trim_matches('"');
+        // the term must be a plain projected column, unambiguous
+        let hits: Vec<usize> = (0..names.len()).filter(|&i| names[i] == bare).collect();
+        if hits.len() != 1 || !bare.chars().all(|c| c.is_alphanumeric() || c == '_') {
+            return false;
+        }
+        keys.push((hits[0], desc));
+    }
+    if keys.is_empty() {
+        return false;
+    }
+    // SQLite: NULL is the smallest value
+    rows.windows(2).any(|w| {
+        for (i, desc) in &keys {
+            let o = key_cmp(std::slice::from_ref(&w[0][*i]), std::slice::from_ref(&w[1][*i]), &[*desc], true);
+            match o {
+                Ordering::Less => return false,
+                Ordering::Greater => return true,
+                Ordering::Equal => {}
+            }
+        }
+        false
+    })
+}
+
 /// Full comparison of one program on a list of instances.
 pub fn check_program(db: &Db, prog: &Program, insts: &[Inst]) -> Outcome {
     let text = pr_program(prog);
@@ -333,6 +390,13 @@ pub fn check_program(db: &Db, prog: &Program, insts: &[Inst]) -> Outcome {
             if let Some(desc) = &reference.order {
                 out.ordered_checked += 1;
                 if !order_admissible(&reference.rows, desc, &got) && !order_reported {
+                    // second opinion about the *engine*: does the result respect the ORDER BY of the
+                    // outermost SELECT of the statement it was given? (the bundled SQLite 3.49.1 returns
+                    // `... GROUP BY a ORDER BY a DESC` over a sorted, limited sub-query in ascending order)
+                    if engine_violates_own_order_by(sql, &names, &got) {
+                        *out.undecided.entry("engine result violates the statement's own ORDER BY (SQLite optimizer defect)".into()).or_insert(0) += 1;
+                        continue;
+                    }
                     order_reported = true;
                     out.findings.push(Finding {
                         kind: Kind::Order,
@@ -428,5 +492,30 @@ pub fn replay(v: &serde_json::Value) -> i32 {
                 }
             }
         }
+    }
+}
+
+#[cfg(test)]
+mod tests {
+    use super::*;
+    #[test]
+    fn order_after_group_then_sort() {
+        let mut prog = Program::default();
+        prog.main = Some(Pipeline {
+            src: Source::Table("t".into()),
+            steps: vec![
+                Step::Sort(vec![(false, E::Col(0))]),
+                Step::Take(Some(1), Some(2)),
+                Step::Group { keys: vec![0], inner: vec![Step::Aggregate(vec![("n".into(), Agg::CountThis, None)])] },
+                Step::Sort(vec![(true, E::Col(0))]),
+            ],
+        });
+        let inst = Inst { name: "x".into(), t: vec![vec![V::Int(1), V::Null], vec![V::Int(2), V::Null]], u: vec![vec![V::Int(1), V::Null]] };
+        let db = Db::new();
+        let o = check_program(&db, &prog, &[inst]);
+        for f in &o.findings {
+            eprintln!("{:?} {} exp={} got={} SQL={} PRQL={}", f.kind, f.msg, f.expected, f.got, f.sql, o.text);
+        }
+        assert!(o.findings.is_empty(), "{}", o.text);
     }
 }
